@@ -237,6 +237,38 @@ def sign_env(f, gname):
     return env
 
 
+def chain_rule(pm, ctx):
+    from ..e8_models import check_model_gradient
+    from ..e8_index import Unsupported
+    seen = {}
+    for K in pm.concrete_estimators():
+        if K.name in ("Douglas",) or not any(C.name == "DiscriminativeModel" for C in K.mro):
+            continue
+        key = tuple(id(pm.resolve_method(K, m)[1]) for m in ("_infer", "_compute_grads", "_update_weights", "_get_weights"))
+        if key in seen:
+            ctx.ok("C03-j", f"{K.name}: same forward/backward functions as {seen[key]}")
+            continue
+        seen[key] = K.name
+        C, f = pm.resolve_method(K, "_compute_grads")
+        try:
+            res = check_model_gradient(pm, K.name)
+        except Unsupported as e:
+            ctx.unrecognised("C03-j", f"{K.name}: chain rule", f"outside the translated subset: {e}")
+            continue
+        except RecursionError:
+            ctx.unrecognised("C03-j", f"{K.name}: chain rule", "term too deep")
+            continue
+        for wname, status, detail in res:
+            site = f"{K.name}: direction of {wname}"
+            if status == "exact":
+                ctx.ok("C03-j", site, "= -(dGEMINI/dy . dy/dtheta) + d penalty/dtheta")
+            elif status == "undecided":
+                ctx.undecided_site("C03-j", site, detail)
+            else:
+                ctx.violation("C03-j", C.unit.relpath, f"{C.name}._compute_grads", f"direction of {wname} [{K.name}]", f"the direction of {wname} is not the gradient of "
+                              f"-GEMINI + penalty through {K.name}._infer: {detail}", line=f.lineno, site=site)
+
+
 def run(pm, ctx):
     ctx.rule("C03-a", "no parameter may receive a direction built from another parameter's gradient", floor=14)
     ctx.rule("C03-b", "chain rule: the gradient of an upstream parameter must read every downstream weight (and the retained "
@@ -248,6 +280,9 @@ def run(pm, ctx):
     ctx.rule("C03-g", "directions are descent directions of -GEMINI + penalty", floor=12)
     ctx.rule("C03-h", "the penalty term of the direction is the gradient of the documented penalty (l2: 2*reg*W; kernel-weighted l2: 2*reg*K@W)", floor=2)
 
+    ctx.rule("C03-j", "the direction handed to the optimiser is -(chain rule of the GEMINI gradient through the model's own forward function) plus "
+             "the gradient of the model's penalty: symbolic differentiation of _infer compared, as canonical forms, with _compute_grads / _update_weights", floor=17)
+    chain_rule(pm, ctx)
     concrete = pm.concrete_estimators()
     # representative concrete estimator per _compute_grads definition
     def any_concrete(ci):
@@ -782,4 +817,21 @@ def controls(pm, tier):
                 return {ci.unit.relpath: replace_node(ci.unit, n, "self.W_ = new_W")}
         return None
     out.append({"name": "sparse linear weights re-bound instead of copied in place", "rule": "C03-f", "apply": rebind})
+
+    def tmut(mod, find, repl, name):
+        def apply(pm_):
+            u = pm_.unit(mod)
+            if find not in u.src:
+                return None
+            return {u.relpath: u.src.replace(find, repl, 1)}
+        out.append({"name": name, "rule": "C03-j", "apply": apply})
+    LIN, MLP_, CAT, SMLP = "gemclus.linear._linear_geminis", "gemclus.mlp._mlp_geminis", "gemclus.nonparametric._categorical_models", "gemclus.sparse._mlp_sparse"
+    tmut(LIN, "        tau_hat_grad = y_pred * (gradient - (y_pred * gradient).sum(1, keepdims=True))  # Shape NxK\n\n        W_grad",
+         "        tau_hat_grad = y_pred * (gradient - gradient.sum(1, keepdims=True))  # Shape NxK\n\n        W_grad", "softmax Jacobian without the y weights")
+    tmut(LIN, "        W_grad = X.T @ tau_hat_grad\n        b_grad", "        W_grad = 2 * X.T @ tau_hat_grad\n        b_grad", "weight direction doubled")
+    tmut(MLP_, "        backprop_grad *= self.H_ > 0\n", "        backprop_grad *= self.H_ >= 0\n", "ReLU derivative taken as 1 on dead units")
+    tmut(MLP_, "        W2_grad = self.H_.T @ tau_hat_grad", "        W2_grad = self.H_.T @ gradient", "output layer skips the softmax Jacobian")
+    tmut(MLP_, "        b1_grad = backprop_grad.sum(0, keepdims=True)", "        b1_grad = backprop_grad.mean(0, keepdims=True)", "hidden bias averaged instead of summed")
+    tmut(SMLP, "        W_skip_grad = X.T @ tau_hat_grad", "        W_skip_grad = X.T @ backprop_grad @ self.W1_.T @ X.T @ tau_hat_grad * 0 + X.T @ y_pred", "skip connection direction from the predictions")
+    tmut(LIN, "        gradients[0] += self.reg * 2 * self.W_", "        gradients[0] += self.reg * self.W_", "RIM penalty gradient halved")
     return out
